@@ -82,6 +82,8 @@ struct Engine {
 	time_t now = 1000000;
 	long calls_since_progress = 0, total_calls = 0;
 	bool finish = false, stop_requested = false, thread_parked = false, hang = false;
+	bool obs_stop = false;		    // the observation in progress follows an rtr_stop(): what is left is charged to C07
+	bool expired_since_query = false; // an expiry purge was due at the last open(): records / first query are C07's business too
 	// connection
 	bool conn_open = false, peer_closed = false;
 	int conn_no = 0;
@@ -156,17 +158,29 @@ static std::string fnv_str(const std::string &s)
 // A failure charged to ANOTHER property is only noted (that property's own check reports it): the caller then adopts
 // what it observed into the model and the conversation goes on, so that consequences for the property under test
 // (a wrong next query, data that never expires, a client that never re-converges ...) are still seen.
-static bool fail(const char *prop, const std::string &sig, const std::string &what)
+// `props` may name several properties ("C03,C07"): the failure violates a sentence of each of them, and a run for any of them reports it.
+static bool fail(const std::string &props, const std::string &sig, const std::string &what)
 {
-	if (!E->opt.focus.empty() && E->opt.focus != prop) {
-		E->rep.cls[std::string("failure-charged-to-another-property(") + prop + ")"]++;
-		if (E->rep.first_foreign.empty()) E->rep.first_foreign = std::string(prop) + ":" + sig + ": " + what;
-		return false;
+	std::string prop = props.substr(0, props.find(','));
+	if (!E->opt.focus.empty()) {
+		bool mine = false;
+		for (size_t i = 0; i < props.size();) {
+			size_t j = props.find(',', i);
+			if (j == std::string::npos) j = props.size();
+			if (props.compare(i, j - i, E->opt.focus) == 0) mine = true;
+			i = j + 1;
+		}
+		if (!mine) {
+			E->rep.cls[std::string("failure-charged-to-another-property(") + props + ")"]++;
+			if (E->rep.first_foreign.empty()) E->rep.first_foreign = props + ":" + sig + ": " + what;
+			return false;
+		}
+		prop = E->opt.focus;
 	}
 	if (E->rep.ok) {
 		E->rep.ok = false;
 		E->rep.prop = prop;
-		E->rep.sig = std::string(prop) + ":" + sig;
+		E->rep.sig = prop + ":" + sig;
 		E->rep.what = what;
 	}
 	E->finish = true;
@@ -327,6 +341,25 @@ static Snapshot snapshot()
 	if (shim_spki_count(E->spki) != (unsigned)std::count_if(s.all.begin(), s.all.end(), [](const std::pair<int, int> &p) { return p.first >= 40 && p.first < 1000; }))
 		s.unknown++;
 	return s;
+}
+
+// Records attributed to the client's socket, counted without the universe mapping (usable in weak conversations too).
+static void raw_cb(const struct pfx_record *r, void *d) { if (r->socket == &E->sock) ++*(long *)d; }
+static long raw_count_mine()
+{
+	struct NoFail { long save; NoFail() : save(L.fail_at) { L.fail_at = 0; } ~NoFail() { L.fail_at = save; } } nofail;
+	long n = 0;
+	pfx_table_for_each_ipv4_record(&E->pfx, raw_cb, &n);
+	pfx_table_for_each_ipv6_record(&E->pfx, raw_cb, &n);
+	for (int k = 0; k < 3; k++) {
+		wire::URec u = wire::urec(40 + k);
+		struct spki_record *res = nullptr;
+		unsigned int cnt = 0;
+		spki_table_search_by_ski(E->spki, u.ski, &res, &cnt);
+		for (unsigned i = 0; i < cnt; i++) if (res[i].socket == &E->sock) n++;
+		lrtr_free(res);
+	}
+	return n;
 }
 
 static std::string ids(const IdSet &s)
